@@ -229,7 +229,9 @@ def judge_stream(chk: Check, case, res, healthy_rules):
         timed = sorted(res.get("slow_rules") or [], key=lambda x: -x[1])
         rules = [r for r, t in timed if t > case["cpu_limit"] / 2] or [r for r, _ in timed[:1]] or ["unattributed"]
         for r in rules:
-            key = f"slow:{r}:{cls}"
+            # the mutation class is not what makes a run slow, so slow spots are keyed by rule; a listed slow rule that suddenly needs
+            # more than 60 CPU s (quick/thorough sizes stay below) is a different, unlisted key
+            key = f"slow:{r}" if res["cpu"] <= 60 else f"veryslow:{r}:{cls}"
             reason = f"linting took {res['cpu']} CPU s for {len(case['data'])} bytes (limit {case['cpu_limit']:.1f} s)"
             if key in chk.known["known"] or res["cpu"] > 2 * case["cpu_limit"]:
                 known_or_violation(key, reason, {"slow_rules": res.get("slow_rules")})
